@@ -1316,7 +1316,7 @@ def run_conc(prop, tier, seed, jobs, write_evidence, write_replay, load_known):
         return 1
     rng = random.Random(seed * 7919 + int(prop[1:]))
     thorough = tier == "thorough"
-    scen = cfg["scen"](rng, 150 if thorough else 12)
+    scen = cfg["scen"](rng, 150 if thorough else 20)
     info = {}
     if cfg.get("info"):
         info = {x[0].split()[1]: x[1] for x in scen}
@@ -1337,11 +1337,11 @@ def run_conc(prop, tier, seed, jobs, write_evidence, write_replay, load_known):
                     pending = None
                     extra.append(ln)
         scen = extra + scen
-    iters = (20000 if thorough else 300) if cfg.get("model") else (6000 if thorough else 120)
+    iters = (20000 if thorough else 900) if cfg.get("model") else (6000 if thorough else 360)
     lines = run_scenarios(scen, seed, iters, "mixed", jobs)
     extra_groups = []
     for g in cfg.get("more", []):
-        gs = g["scen"](rng, 150 if thorough else 12)
+        gs = g["scen"](rng, 150 if thorough else 20)
         ginfo = {x[0].split()[1]: x[1] for x in gs} if g.get("info") else {}
         gs = [x[0] for x in gs] if g.get("info") else gs
         gq, gt = g.get("iters", (120, 6000))
@@ -1450,7 +1450,7 @@ def lockorder_supplement(tier, seed, jobs):
         for x in f(rng, 20 if thorough else 4):
             scen.append(x[0] if isinstance(x, tuple) else x)
     scen = [re.sub(r"^\(conc (\S+)", lambda m: "(conc C07-%d-%s" % (i, m.group(1)), s_) for i, s_ in enumerate(scen)]
-    iters = 600 if thorough else 40
+    iters = 600 if thorough else 100
     chunks = [scen[i::jobs] for i in range(jobs) if scen[i::jobs]]
     def work(chunk):
         env = dict(os.environ); env["RXH_LOCKCERT"] = "3"
@@ -1537,7 +1537,7 @@ def release_supplement(tier, seed, jobs):
         xs = [x[0] if isinstance(x, tuple) else x for x in f(rng, 20 if thorough else 4)]
         scen += xs if thorough else xs[::3]
     scen = [re.sub(r"^\(conc (\S+)", lambda m: "(conc C17c-%d-%s" % (i, m.group(1)), s_) for i, s_ in enumerate(scen)]
-    iters = 400 if thorough else 25
+    iters = 400 if thorough else 40
     lines = run_scenarios(scen, seed, iters, "mixed", jobs)
     execs = [l for l in lines if l.count(" | ") >= 3]
     done = [l for l in lines if " | done " in l]
